@@ -7,7 +7,7 @@ from ..num import Num, Fail
 
 ID = "C05"
 LEVEL = "exploration"
-RULE = ("evaluation = one (operator, left operand, right operand) triple whose operands reach the operator through "
+RULE = ("evaluation = one (operator, left operand, right operand) triple - the operator written as an expression `a op b` or, for + - * / % where the result keeps the left kind, as the op-assignment `t op= b` on a variable / a list element / an object field - whose operands reach the operator through "
         "run-time variables; enumerated part = every operator (+ - * / % < <= > >= == != on the 16 kind pairs, & | xor << >> "
         "on the 9 non-float pairs, unary - and !) x ALL pairs of the boundary-value set of each kind, plus every comparison of an integer with the doubles 0, 1 and 2 ulps (and 0.5) on either side of it in both operand orders; random part = "
         "Hypothesis operands. Oracle = exact arithmetic in Python ints / IEEE doubles + the statement's promotion table; "
@@ -43,9 +43,24 @@ def model(op, a, b):
         return ("fail", f.reason)
 
 
-def pair_src(i, op, a, b):
-    """Source lines and expected operand lines for one evaluation."""
+HOLDERS = "".join("class H%s {\n\tv: %s\n\tconstructor(self, v: %s) {\n\t\tself.v = v\n\t}\n}\n" % (k, k, k) for k in ("int", "bigint", "float", "byte"))
+FORMS = ("expr", "var", "elem", "field")
+
+
+def pair_src(i, op, a, b, form="expr"):
+    """Source lines and expected operand lines for one evaluation. form: the operator as an expression `a op b`, or as the
+    op-assignment `t op= b` on a variable / a list element / an object field holding a"""
     an, bn = "a%d" % i, "b%d" % i
+    if form != "expr":
+        lines = ['print "@%d"' % i] + num.init_stmts(an, a) + ["print " + an] + num.init_stmts(bn, b) + ["print " + bn]
+        exp = ["str:@%d" % i, "%s:%s" % (a.k, num.fmt(a)), "%s:%s" % (b.k, num.fmt(b))]
+        if form == "var":
+            lines += ["t%d: %s = %s" % (i, a.k, an), "t%d %s= %s" % (i, op, bn), "print t%d" % i]
+        elif form == "elem":
+            lines += ["l%d: [%s...] = [%s, %s]" % (i, a.k, an, an), "l%d[1] %s= %s" % (i, op, bn), "print l%d[1]" % i]
+        else:
+            lines += ["h%d = H%s(%s)" % (i, a.k, an), "h%d.v %s= %s" % (i, op, bn), "print h%d.v" % i]
+        return lines, exp
     lines = ['print "@%d"' % i] + num.init_stmts(an, a)
     exp = ["str:@%d" % i]
     lines.append("print " + an)
@@ -60,10 +75,10 @@ def pair_src(i, op, a, b):
     return lines, exp
 
 
-def single_scenario(op, a, b):
-    lines, exp = pair_src(0, op, a, b)
+def single_scenario(op, a, b, form="expr"):
+    lines, exp = pair_src(0, op, a, b, form)
     kind, val = model(op, a, b)
-    src = "\n".join(lines) + "\nprint \"@end\"\n"
+    src = (HOLDERS if form == "field" else "") + "\n".join(lines) + "\nprint \"@end\"\n"
     steps = [{"id": "run", "argv": ["mscript", "run", "main.ms", "-q"], "env": ENV}]
     ok_asserts = [{"kind": "stdout_eq", "step": "run", "float_by_value": True, "value": "\n".join(exp + [val, "str:@end"]) + "\n"},
                   {"kind": "exit", "step": "run", "in": ["ok"]}]
@@ -80,8 +95,8 @@ def single_scenario(op, a, b):
     return scenario.simple(src, steps, asserts), (kind, val), exp
 
 
-def judge_single(op, a, b):
-    sc, (kind, val), exp = single_scenario(op, a, b)
+def judge_single(op, a, b, form="expr"):
+    sc, (kind, val), exp = single_scenario(op, a, b, form)
     res, fails, _ = scenario.execute(sc)
     if not fails:
         return None
@@ -101,9 +116,10 @@ def judge_single(op, a, b):
     else:
         got = "failed(%s)" % r.klass if r.klass in ("error", "panic") else "crashed(%s)" % r.klass
     kinds = a.k + ("," + b.k if b is not None else "")
-    sig = "C05:%s:%s:%s:%s" % (op, kinds, expect, got)
-    msg = "%s %s %s: model says %s %s; %s" % (a, op, b, kind, val, "; ".join(fails))
-    return ("fail", fail(msg, sig, sc, case={"op": op, "a": repr(a), "b": repr(b)}))
+    opname = op if form == "expr" else "%s=@%s" % (op, form)
+    sig = "C05:%s:%s:%s:%s" % (opname, kinds, expect, got)
+    msg = "%s %s %s: model says %s %s; %s" % (a, opname, b, kind, val, "; ".join(fails))
+    return ("fail", fail(msg, sig, sc, case={"op": op, "a": repr(a), "b": repr(b), "form": form}))
 
 
 def extreme(n):
@@ -123,7 +139,7 @@ def check(case):
         if fails:
             r.failure = fail("boolean not: " + "; ".join(fails), "C05:!:bool:value:wrong-value", sc, case={"op": "!"})
         return r
-    op, pairs = case["op"], case["pairs"]
+    op, pairs, form = case["op"], case["pairs"], case.get("form", "expr")
     ok_pairs, lone = [], []
     for a, b in pairs:
         (ok_pairs if model(op, a, b)[0] == "val" else lone).append((a, b))
@@ -131,21 +147,21 @@ def check(case):
     for a, b in pairs:
         kind, val = model(op, a, b)
         if extreme(a) or (b is not None and (extreme(b) or a.k != b.k)) or kind == "fail":
-            nt.append("%s|%r|%r" % (op, a, b))
+            nt.append("%s%s|%r|%r" % (op, "" if form == "expr" else "=@" + form, a, b))
         lab = "expect=" + ("value" if kind == "val" else "fail:" + val)
         labels[lab] = labels.get(lab, 0) + 1
     r = CaseResult(evals=len(pairs), nt_keys=nt,
-                   labels=["op=" + op] + ["kinds=%s,%s" % (pairs[0][0].k, pairs[0][1].k if pairs[0][1] is not None else "-")],
+                   labels=["op=" + op, "form=" + form] + ["kinds=%s,%s" % (pairs[0][0].k, pairs[0][1].k if pairs[0][1] is not None else "-")],
                    sample={"op": op, "a": repr(pairs[0][0]), "b": repr(pairs[0][1]), "model": list(model(op, *pairs[0])), "batch": len(pairs)})
     r.labels += [l for l, n in labels.items() for _ in range(n)]
     suspects = list(lone)
     if ok_pairs:
         lines, exp = [], []
         for i, (a, b) in enumerate(ok_pairs):
-            l, e = pair_src(i, op, a, b)
+            l, e = pair_src(i, op, a, b, form)
             lines += l
             exp += e + [model(op, a, b)[1]]
-        sc = scenario.simple("\n".join(lines) + "\n", [{"id": "run", "argv": ["mscript", "run", "main.ms", "-q"], "env": ENV}],
+        sc = scenario.simple((HOLDERS if form == "field" else "") + "\n".join(lines) + "\n", [{"id": "run", "argv": ["mscript", "run", "main.ms", "-q"], "env": ENV}],
                              [{"kind": "stdout_eq", "step": "run", "float_by_value": True, "value": "\n".join(exp) + "\n"},
                               {"kind": "exit", "step": "run", "in": ["ok"]}])
         res, fails, _ = scenario.execute(sc)
@@ -153,7 +169,7 @@ def check(case):
             suspects = ok_pairs + suspects
     first_known = None
     for a, b in suspects:
-        j = judge_single(op, a, b)
+        j = judge_single(op, a, b, form)
         if j is None:
             continue
         if j[0] == "rejected":
@@ -191,6 +207,11 @@ def enumerated(tier, seed):
             if "float" not in (k1, k2):
                 for op in BIT:
                     cases += [{"op": op, "pairs": c} for c in chunks(pairs, 100)]
+            if num.promote(k1, k2) == k1:
+                # the same operators as op-assignments (`t op= b`): the result must be storable in the target's kind
+                for form in FORMS[1:]:
+                    for op in ARITH:
+                        cases += [{"op": op, "pairs": c, "form": form} for c in chunks(pairs, 100)]
     for k in ("int", "bigint", "float"):
         cases.append({"op": "neg", "pairs": [(a, None) for a in B(k)]})
     # comparisons at their own boundary: an integer against the doubles on either side of it (1 and 2 ulps away) and against
@@ -248,7 +269,10 @@ def random_case(draw):
             b = Num(k2, min(hi, max(lo, base + d)))
         pair = (a, b) if draw(st.booleans()) else (b, a)
         return {"op": op, "pairs": [pair]}
-    return {"op": op, "pairs": [(a, draw(operand(k2)))]}
+    b = draw(operand(k2))
+    if grp == "arith" and num.promote(k1, k2) == k1 and draw(st.integers(0, 9)) < 3:
+        return {"op": op, "pairs": [(a, b)], "form": draw(st.sampled_from(FORMS[1:]))}
+    return {"op": op, "pairs": [(a, b)]}
 
 
 def strategy(tier):
